@@ -14,7 +14,7 @@ RULE = ('Generated conformant documents of every selectable map (1-2 sets, 1-2 g
         'order; seg_count equals the recounted position in the set and cur_line_number the ordinal in the file. non-trivial = distinct (map, L) pairs that yielded >=1 tree.')
 ASSUMPTIONS = ['the intended map path and loop instance of each segment are the generator\'s ground truth',
                'position in the set is not asserted for ISA/GS/GE/IEA (they are outside any set)']
-REQUIRED_COUNTERS = ['docs:with-TA1:after-isa', 'docs:with-TA1:before-iea', 'docs:interchanges-of-different-versions', 'docs:sibling-loops-interleaved', 'runs', 'runs:None', 'runs:absent-loop', 'trees', 'segments-compared', 'tree-segments-compared', 'runs:ISA_LOOP', 'runs:ST_LOOP']
+REQUIRED_COUNTERS = ['docs:set-control-number-used-twice-in-a-group', 'docs:with-TA1:after-isa', 'docs:with-TA1:before-iea', 'docs:interchanges-of-different-versions', 'docs:sibling-loops-interleaved', 'runs', 'runs:None', 'runs:absent-loop', 'trees', 'segments-compared', 'tree-segments-compared', 'runs:ISA_LOOP', 'runs:ST_LOOP']
 MIN_CASES = {'quick': 800, 'thorough': 20000}
 WATCHDOG_S = {'quick': 1200, 'thorough': 7200}
 
@@ -142,6 +142,26 @@ def judge(ctx, doc, text, L, case, sigs):
         sigs.add('%s|%s' % (doc.mapfile, L))
 
 
+def dup_st(doc):
+    """a content finding that leaves the structure alone: the second set of a group re-uses the control number of the first (positions within a
+    set start again at every ST all the same)"""
+    prev_st = None
+    dup = False
+    for r_ in doc.recs:
+        if r_.node.id == 'GS':
+            prev_st = None
+        elif r_.node.id == 'ST':
+            if prev_st is not None and not dup:
+                old_id = r_.vals[1]
+                r_.vals[1] = prev_st
+                dup = old_id
+            prev_st = r_.vals[1]
+        elif r_.node.id == 'SE' and dup and dup is not True and r_.vals[1] == dup:
+            r_.vals[1] = prev_st
+            dup = True
+    return bool(dup)
+
+
 def loop_ids_for(doc):
     """segment-anchored loops of the map that occur in the document, in order of first occurrence"""
     seen = []
@@ -184,6 +204,9 @@ def run(ctx):
             if len(doc.recs) > 700:
                 ctx.count('skipped-large')
                 continue
+            if k % 2 == 0 and dup_st(doc):
+                doc.meta['dup_st'] = True
+                ctx.count('docs:set-control-number-used-twice-in-a-group')
             if k % 3 == 0 or k % 4 == 3:
                 # an interchange acknowledgement segment in every interchange, after the ISA or after the last group: a segment of ISA_LOOP
                 # that belongs to no group
@@ -201,7 +224,7 @@ def run(ctx):
                 if L == '<absent>':
                     L = absent_loop(doc)
                     ctx.count('runs:absent-loop')
-                case = {'map': e['file'], 'entry': e, 'gen_seed': seed, 'params': kw, 'loop_id': L, 'ta1': doc.meta.get('ta1')}
+                case = {'map': e['file'], 'entry': e, 'gen_seed': seed, 'params': kw, 'loop_id': L, 'ta1': doc.meta.get('ta1'), 'dup_st': doc.meta.get('dup_st')}
                 judge(ctx, doc, text, L, case, sigs)
                 n += 1
             ctx.sample({'map': label, 'loop_ids': ids, 'segments': len(doc.recs), 'text_head': text[:300]})
@@ -233,6 +256,8 @@ def replay(ctx, case):
     if case.get('mixed'):
         raise RuntimeError('mixed-version cases are regenerated from VERIF_SEED (re-run the check with the seed of the replay file); the stored text shows the input')
     doc = gen_doc.gen_document(case['entry'], case['gen_seed'], **case['params'])
+    if case.get('dup_st'):
+        dup_st(doc)
     if case.get('ta1'):
         doc = gen_doc.add_ta1(doc, case['ta1'])
     judge(ctx, doc, doc.text(), case['loop_id'], case, set())
